@@ -281,6 +281,10 @@ pub fn block(name: &str, c: &AlphaCtx, out: &mut Vec<Op>) {
                 out.push(Op::arg(OpK::TryReserve, (i64::MAX as u64) - j));
                 out.push(Op::arg(OpK::TryReserve, (i64::MAX as u64) + j));
                 out.push(Op::arg(OpK::Reserve, (i64::MAX as u64) + 1 + j));
+                // shrink_to takes any usize too (its head-room arithmetic must not wrap either)
+                out.push(Op::arg(OpK::ShrinkTo, u64::MAX - j));
+                out.push(Op::arg(OpK::ShrinkTo, (i64::MAX as u64) - j));
+                out.push(Op::arg(OpK::ShrinkTo, (i64::MAX as u64) + 1 + j));
             }
             for sh in [60u32, 61, 62, 63] {
                 out.push(Op::arg(OpK::TryReserve, 1u64 << sh));
@@ -341,6 +345,21 @@ pub fn block(name: &str, c: &AlphaCtx, out: &mut Vec<Op>) {
                 out.push(Op::arg(OpK::ExtendFresh, 20));
                 out.push(Op::new(OpK::ExtendOverlap, c.classes.old_next.or(c.classes.main_a).unwrap_or(0), 4));
                 out.push(Op::new(OpK::ExtendRef, c.next_key.saturating_sub(2), 5));
+            }
+        }
+        "siter" => {
+            out.push(Op::k(OpK::IterCheck));
+            let ps: Vec<u64> = if c.len <= 40 { (0..=len).collect() } else { vec![0, 1, len / 2, len.saturating_sub(1), len] };
+            out.push(Op::arg(OpK::Drain, iter_arg(0, MODE_CONSUME, 0)));
+            out.push(Op::arg(OpK::IntoIter, iter_arg(0, MODE_CONSUME, 0)));
+            for &p in &ps {
+                for mode in [MODE_DROP_AT, MODE_FORGET_AT] {
+                    out.push(Op::arg(OpK::Drain, iter_arg(0, mode, p)));
+                    out.push(Op::arg(OpK::IntoIter, iter_arg(0, mode, p)));
+                    for pred in [1u64, 2, 4] {
+                        out.push(Op::arg(OpK::DrainFilter, iter_arg(pred, mode, p)));
+                    }
+                }
             }
         }
         "clone" => {
